@@ -68,6 +68,8 @@ type FuncContract struct {
 	Derived         []string
 	Approx          []string
 	NDIfaceOnly     bool // "ndmodel interface": ND values are used through the interface contracts only (no static dispatch on a known dynamic type)
+	BoundedNote     string // "bounded <note>": every obligation of this function is counted as bounded (not proved), with this note
+	RowMajor        bool // "ndmodel rowmajor": ND values of unknown dynamic type follow the general-rank interface contracts "iface rowmajor:Method"
 	LocModel        bool
 	SimplifyIDs     bool // "simplify entry-ids"
 	ChainEnsures    bool // "chain ensures": each postcondition may assume the ones listed before it
@@ -388,7 +390,7 @@ func parseFuncDirective(fc *FuncContract, word, rest, file string, line int) {
 			return
 		}
 		switch f[1] {
-		case "invariant", "step":
+		case "invariant", "step", "prestep":
 			fc.Clauses = append(fc.Clauses, mk(f[1], strings.TrimSpace(f[2]), n))
 		case "unroll":
 			k, err := strconv.Atoi(strings.TrimSpace(f[2]))
@@ -399,6 +401,8 @@ func parseFuncDirective(fc *FuncContract, word, rest, file string, line int) {
 		default:
 			fatalf("%s:%d: unknown loop directive %q", file, line, f[1])
 		}
+	case "bounded":
+		fc.BoundedNote = strings.TrimSpace(rest)
 	case "simplify":
 		fc.SimplifyIDs = strings.TrimSpace(rest) == "entry-ids"
 	case "chain":
@@ -442,6 +446,7 @@ func parseFuncDirective(fc *FuncContract, word, rest, file string, line int) {
 	case "ndmodel":
 		fc.LocModel = strings.TrimSpace(rest) == "locations"
 		fc.NDIfaceOnly = strings.TrimSpace(rest) == "interface"
+		fc.RowMajor = strings.TrimSpace(rest) == "rowmajor"
 	case "atsend":
 		// atsend [label] expr: holds when the goroutine body signals completion (channel send)
 		fc.Clauses = append(fc.Clauses, mk("atsend", rest, -1))
